@@ -108,6 +108,26 @@ def handle (op : String) (a : Json) : Except String Json := do
       ("err", match r.err with | none => Json.null | some e => resJson e),
       ("runs", arr (r.runs.map (fun run => arr (run.trace.map evJson))))])
     return ok (Json.mkObj [("acked", toJson st.acked), ("buffer", toJson st.buffer), ("results", arr resJ)])
+  | "client_call" =>
+    let verified ← getBool a "verified"
+    let head ← getBool a "head"
+    let ign ← a.getObjValAs? (Array Nat) "ignore"
+    let rep (k : String) : Except String Reply := do
+      let v ← a.getObjVal? k
+      match v with
+      | Json.str "connError" => pure Reply.connError
+      | Json.str "connTimeout" => pure Reply.connTimeout
+      | v => do let n ← v.getNat?; pure (Reply.status n)
+    let info ← rep "info"
+    let target ← rep "target"
+    let (ex, out) := clientCall verified head ign.toList info target
+    let exJ := ex.map (fun e => match e with | .info => Json.str "info" | .target => Json.str "target")
+    let outJ := match out with
+      | .response s => arr [Json.str "response", toJson s]
+      | .raisedStatus s => arr [Json.str "status", toJson s]
+      | .raisedConnError => arr [Json.str "connError"]
+      | .raisedConnTimeout => arr [Json.str "connTimeout"]
+    return ok (Json.mkObj [("exchanges", arr exJ), ("outcome", outJ)])
   | "pause" =>
     let k ← getNat a "k"
     let r ← getRat a "r"
